@@ -215,6 +215,28 @@ def check_modules(chk, rng, tier):
                     ok2, m2 = chk.impl_call(f"C19:{name}:load_pickle-raised", case, load_pickle, fn, nnx.graphdef(m), dev) if ok else (False, None)
                     if ok2:
                         compare(f"pickle[{dev}]", m2)
+                        # histories with several loads / saves of one file name: a second load is again the saved module and shares no
+                        # storage with the first; training one copy leaves the other and later loads untouched; a re-save is what is read next
+                        ok3, m3 = chk.impl_call(f"C19:{name}:load_pickle-raised", case, load_pickle, fn, nnx.graphdef(m), dev)
+                        if ok3:
+                            compare(f"pickle[{dev}]-second-load", m3)
+                            v2 = {id(v) for _, v in nnx.iter_graph(m2) if isinstance(v, nnx.Variable)}
+                            v3 = {id(v) for _, v in nnx.iter_graph(m3) if isinstance(v, nnx.Variable)}
+                            nnx.update(m2, jax.tree_util.tree_map(lambda x: x + 1 if jax.numpy.issubdtype(x.dtype, jax.numpy.floating) else x, nnx.state(m2)))
+                            if (v2 & v3) or [a for (_, a), (_, b) in zip(ref_leaves, leaves_of(m3)) if a != b]:
+                                chk.fail(f"C19:{name}:reload-shares-storage", "two modules loaded from the same file share parameter storage: changing one changed the other",
+                                         {"case": case, "path": f"pickle[{dev}]"})
+                            ok4, m4 = chk.impl_call(f"C19:{name}:load_pickle-raised", case, load_pickle, fn, nnx.graphdef(m), dev)
+                            if ok4:
+                                compare(f"pickle[{dev}]-load-after-training-a-copy", m4)
+                            mb = make(1 + si)
+                            nnx.update(mb, jax.tree_util.tree_map(lambda x: x * 0 + 0.5 if jax.numpy.issubdtype(x.dtype, jax.numpy.floating) else x, nnx.state(m)))
+                            okb, _ = chk.impl_call(f"C19:{name}:save_pickle-raised", case, save_pickle, fn, mb, dev)
+                            okc, mc = chk.impl_call(f"C19:{name}:load_pickle-raised", case, load_pickle, fn, nnx.graphdef(m), dev) if okb else (False, None)
+                            if okc and [a for (_, a), (_, b) in zip(leaves_of(mb), leaves_of(mc)) if a != b]:
+                                chk.fail(f"C19:{name}:resave-not-read", "after saving another module under the same file name, loading returns the earlier save",
+                                         {"case": case, "path": f"pickle[{dev}]"})
+                            chk.count("pickle_multi_load_histories")
                 # (2) OrbaxCheckpointer.record_epoch -> save_model; StandardCheckpointer restore + nnx.update
                 n0 = len(ck.checkpoint_path[name])
                 ok, _ = chk.impl_call(f"C19:{name}:record_epoch-raised", case, ck.record_epoch, name, m, step=len(ck.checkpoint_path[name]) + 1)
